@@ -33,8 +33,8 @@ func init() {
 		Rule: "deployments (RSA / ECDSA key, default and custom MaxAge / cookie name) mint session tokens from generated assertions (friendly names present/absent, repeated attributes, several statements, absent subject, empty values) and tracking tokens; requests present: minted tokens at clock positions mint-1s, mint, mint+MaxAge-1s, mint+MaxAge+1s, far future; structure-aware mutants (header alg none/None/HS256-384-512 keyed with the public key in DER/PEM/modulus form, RS/ES/PS swaps, typ/kid edits, claim edits with and without re-signing by own key / other key / other deployment's key, aud/iss changed/array/absent, exp/nbf/iat shifted/absent/strings, marker false/absent/string, signature truncated/extended/bit-flipped/empty, 1..4 segments, base64 padding/alphabet variants, white space); cross-codec (tracking token as session cookie) and cross-deployment replays. " +
 			"Monitor: the handler wrapped by RequireAccount / RequireAttribute records every invocation and the session it sees. Oracle: handler runs <=> the cookie value (as net/http parses it) is a token this deployment minted (or an own-key token with correct issuer, audience, marker and times) strictly inside its lifetime; exposed subject/attributes equal an independent mapping of the creating assertion; RequireAttribute admits <=> the attribute carries the value. Non-trivial = request reached the session decoder with a cookie; distinct by (deployment, token class, clock position).",
 		Assumptions: []string{"exact second boundaries of the lifetime are not judged", "saml.TimeNow and jwt.TimeFunc are moved together"},
-		FloorQuick:  10000,
-		FloorThor:   200000,
+		FloorQuick:  20000,
+		FloorThor:   80000,
 		Run:         runC16,
 		LevelText:   "A ledger of minted tokens and a handler-invocation monitor decide, for every presented cookie over a structure-aware mutation space and clock positions, whether the application handler was allowed to run and what identity it saw. Held-on-observed.",
 		LevelNote:   "Trusts net/http cookie parsing and golang-jwt for crafting hostile tokens (not for the verdict).",
